@@ -6,8 +6,8 @@
 #include "world.h"
 #include "peek.h"
 
-enum { D_NONE = 0, D_UNKNOWN_CA, D_EXPIRED, D_NOT_YET_VALID, D_NAME, D_FORGED_CERT, D_POP_WRONG_SIG, D_POP_OTHER_DATA, D_POP_OMITTED, D_FORGED_COPIED_SIG, D_RESUME_UNAUTH, D_N };
-static const char *D_NAME_S[] = { "none", "unknown_ca", "expired", "not_yet_valid", "name_mismatch", "forged_cert_sig", "pop_wrong_signature", "pop_signature_over_other_data", "pop_message_omitted", "forged_cert_with_copied_root_signature", "resumes_session_made_without_client_auth" };
+enum { D_NONE = 0, D_UNKNOWN_CA, D_EXPIRED, D_NOT_YET_VALID, D_NAME, D_FORGED_CERT, D_POP_WRONG_SIG, D_POP_OTHER_DATA, D_POP_OMITTED, D_FORGED_COPIED_SIG, D_RESUME_UNAUTH, D_POP_OMITTED_CA_AS_LEAF, D_N };
+static const char *D_NAME_S[] = { "none", "unknown_ca", "expired", "not_yet_valid", "name_mismatch", "forged_cert_sig", "pop_wrong_signature", "pop_signature_over_other_data", "pop_message_omitted", "forged_cert_with_copied_root_signature", "resumes_session_made_without_client_auth", "pop_message_omitted_with_ca_certificate_as_leaf" };
 static const char *CB_S[] = { "none", "strict", "allow_all", "allow_one" };
 
 struct KexChoice { int ver; uint16_t suite; int kind; bool has_sig_pop; };   // has_sig_pop: the server signs something (SKE / CertificateVerify)
@@ -21,7 +21,7 @@ static const KexChoice KEX[] = {
 };
 static const int NKEX = sizeof KEX / sizeof KEX[0];
 
-static inline bool is_pop(int d) { return d == D_POP_WRONG_SIG || d == D_POP_OTHER_DATA || d == D_POP_OMITTED; }
+static inline bool is_pop(int d) { return d == D_POP_WRONG_SIG || d == D_POP_OTHER_DATA || d == D_POP_OMITTED || d == D_POP_OMITTED_CA_AS_LEAF; }
 static Plan make_plan(int kex, int verifier_is_server, int defect, int cb, int cb_alert, uint64_t seed) {
     Plan p; p.seed = seed;
     p.cfg["kex"] = kex; p.cfg["vsrv"] = verifier_is_server; p.cfg["defect"] = defect; p.cfg["cb"] = cb; p.cfg["cb_alert"] = cb_alert;
@@ -38,7 +38,8 @@ static Plan c04_gen(uint64_t seed, int tier, uint64_t index) {
     int defect = (int) r.below(D_N);
     if (is_pop(defect) && !vsrv && !KEX[kex].has_sig_pop) { defect = D_FORGED_CERT; }
     if (defect == D_NAME && vsrv) { defect = D_EXPIRED; }
-    if (defect == D_RESUME_UNAUTH && !vsrv) { defect = D_FORGED_COPIED_SIG; }          // servers do not match client names
+    if (defect == D_RESUME_UNAUTH && !vsrv) { defect = D_FORGED_COPIED_SIG; }
+    if (defect == D_POP_OMITTED_CA_AS_LEAF && !vsrv) { defect = D_POP_OMITTED; if (!KEX[kex].has_sig_pop) { defect = D_FORGED_CERT; } }          // servers do not match client names
     int cb = (int) r.below(4);
     if (vsrv && cb == CB_NONE) { cb = CB_STRICT; }                 // a server without a callback does not request a client certificate at all
     Plan p = make_plan(kex, vsrv, defect, cb, ALERTS[r.below(7)], seed);
@@ -63,6 +64,7 @@ static std::vector<Plan> c04_fixed(int tier) {
                 if (is_pop(d) && !vsrv && !KEX[kex].has_sig_pop) { continue; }
                 if (d == D_NAME && vsrv) { continue; }
                 if (d == D_RESUME_UNAUTH && !vsrv) { continue; }
+                if (d == D_POP_OMITTED_CA_AS_LEAF && !vsrv) { continue; }
                 for (int cb = 0; cb < 4; cb++) {
                     if (vsrv && cb == CB_NONE) { continue; }
                     if (cb == CB_ALLOW_ONE) {
@@ -114,6 +116,7 @@ static RunResult c04_exec(const Plan &p) {
         pc.version = V[K.ver]; pc.suites = { K.suite }; pc.server_identity = K.kind;
         if (vsrv) { pc.client_auth = true; pc.client_identity = K.kind == KK_ECDH_RSA || K.kind == KK_ED25519 ? KK_EC256 : K.kind; pc.cb_s = cb; pc.cb_c = CB_ALLOW_ALL; }
         else { pc.cb_c = cb; pc.cb_allow_alert_c = (int) p.get("cb_alert"); }
+        if (defect == D_POP_OMITTED_CA_AS_LEAF) { pc.client_cert_is_ca = true; }     // a public certificate that validates (it IS the trust anchor) and whose keyUsage lacks digitalSignature; nobody here holds its key
         if (has(D_UNKNOWN_CA) && !vsrv) { pc.client_trusts_server = false; }
         if (has(D_FORGED_CERT) || defect == D_FORGED_COPIED_SIG) { if (vsrv) { pc.forge_client_cert = true; } else { pc.forge_server_cert = true; } pc.forge_mode = defect == D_FORGED_COPIED_SIG ? 1 : 0; }
         // every test certificate is issued for DNS:localhost / IP:127.0.0.1; expected names that are NOT that name, from unrelated to near misses
@@ -177,7 +180,7 @@ static RunResult c04_exec(const Plan &p) {
             } else if (!res.harness_error && w.connect()) {
                 // allow_one on the server side uses the same alert parameter
                 if (vsrv) { w.srv->cfg.cb_allow_alert = (int) p.get("cb_alert"); }
-                if (defect == D_POP_OMITTED) {
+                if (defect == D_POP_OMITTED || defect == D_POP_OMITTED_CA_AS_LEAF) {
                     // the peer (real MatrixSSL through the guarded skip hook, so both transcripts agree) sends its certificate but never the message
                     // that proves possession of the key: CertificateVerify (TLS 1.3 both roles, TLS <= 1.2 client) / ServerKeyExchange (TLS <= 1.2 server)
                     vsim_hs_skip(vsrv ? NODE_CLIENT : NODE_SERVER, (K.ver == 2 || vsrv) ? 15 : 12, 1);
@@ -185,7 +188,7 @@ static RunResult c04_exec(const Plan &p) {
                 w.handshake();
                 MxEndpoint &ver = vsrv ? *w.srv : *w.cli;
                 bool completed = ver.is_complete();
-                uint64_t corrupted = defect == D_POP_OMITTED ? vsim_hs_skipped() : vsim_sign_corrupted();
+                uint64_t corrupted = (defect == D_POP_OMITTED || defect == D_POP_OMITTED_CA_AS_LEAF) ? vsim_hs_skipped() : vsim_sign_corrupted();
                 vsim_hs_skip(-1, -1, 0);
                 vsim_sign_corrupt(-1, 0); vsim_sign_mode(0);
                 std::string ctx = std::string(ver_name(pc.version)) + "," + (vsrv ? "server" : "client") + "," + D_NAME_S[defect] + (defect2 ? std::string("+") + D_NAME_S[defect2] : std::string()) + "," + CB_S[cb];
@@ -198,7 +201,7 @@ static RunResult c04_exec(const Plan &p) {
                     if (!completed) { res.harness_error = true; res.detail = "control failed: no defect but the handshake did not complete (" + ctx + ", suite " + suite_name(K.suite) + ") cli_err=" + std::to_string(w.cli->first_error) + " srv_err=" + std::to_string(w.srv->first_error); }
                 } else if (is_pop(defect)) {
                     if (corrupted == 0) { res.count("fault_not_fired"); }
-                    else if (completed) { res.violate("completed_with_defect", ctx, std::string(defect == D_POP_OMITTED ? "the peer never sent its proof-of-possession message (omitted " : defect == D_POP_OTHER_DATA ? "the peer's proof-of-possession signature was a genuine signature over OTHER data (" : "the peer's proof-of-possession signature was corrupted (") + std::to_string(corrupted) + " signature(s)) and the handshake still completed"); }
+                    else if (completed) { res.violate("completed_with_defect", ctx, std::string((defect == D_POP_OMITTED || defect == D_POP_OMITTED_CA_AS_LEAF) ? "the peer never sent its proof-of-possession message (omitted " : defect == D_POP_OTHER_DATA ? "the peer's proof-of-possession signature was a genuine signature over OTHER data (" : "the peer's proof-of-possession signature was corrupted (") + std::to_string(corrupted) + " signature(s)) and the handshake still completed"); }
                 } else if (completed) {
                     bool overridden = cb != CB_NONE && cb_saw_failure && accepted_by_cb;
                     // two defects of different kinds, and an application that accepts exactly ONE alert: whichever it was shown, the other failure was never accepted
